@@ -57,8 +57,10 @@ func suiteParse(rn *runner, r *rng, tier string) {
 		case 7:
 			text, kind = cr.mutate(cr.mutate(cr.doc(cfg))), "mut2"
 		case 8:
-			if cr.chance(1, 2) {
+			if cr.chance(1, 3) {
 				text, kind = cr.denseCtrl(), "densectrl"
+			} else if cr.chance(1, 2) {
+				text, kind = cr.longStrCtrl(), "longstrctrl"
 			} else {
 				text, kind = cr.raw(), "raw"
 			}
